@@ -400,7 +400,7 @@ func (r *Result) mockRules(mk *Mock) {
 		for _, p := range lr.problems {
 			r.Obs = append(r.Obs, Ob{Rule: p.rule, Key: role + ":" + p.key, OK: false, Msg: fmt.Sprintf("%s: %s  [%s]", Abstract(f.Decl.Name.Name), Abstract(p.msg), u.Excerpt(nodePos(p.node))), Pos: nodePos(p.node)})
 		}
-		for _, rule := range []string{"K-LOCK/nested", "K-LOCK/unbalanced", "K-LOCK/call-in-critical-section", "K-LOCK/held-at-exit", "K-LOCK/loop-in-critical-section"} {
+		for _, rule := range []string{"K-LOCK/nested", "K-LOCK/unbalanced", "K-LOCK/call-in-critical-section", "K-LOCK/held-at-exit", "K-LOCK/loop-in-critical-section", "K-LOCK/held-at-callback"} {
 			found := false
 			for _, p := range lr.problems {
 				if p.rule == rule {
